@@ -218,8 +218,20 @@ func (propC12) Run(ctx *Ctx, index int) {
 	ctx.Probe("input_" + in.Class)
 	nsched := 1 + ctx.Prog.Choose(2)
 	strategies := []int{simrt.StratHighest, -1, simrt.StratLowest}
+	// one case in four runs on a parser instance with a history: totality and
+	// the diagnostic must not depend on what that instance parsed before
+	var history []string
+	if ctx.Prog.Choose(4) == 3 {
+		history = reuseHistories[ctx.Prog.Choose(len(reuseHistories))]
+		ctx.Probe("input_on_reused_parser_instance")
+	}
 	for s := 0; s < nsched; s++ {
-		out := simParse(ctx, in.Src, strategies[s%len(strategies)])
+		var out *parseOutcome
+		if history != nil {
+			out = simParseAfter(ctx, history, in.Src, strategies[s%len(strategies)])
+		} else {
+			out = simParse(ctx, in.Src, strategies[s%len(strategies)])
+		}
 		checkC12(ctx, in, out)
 		if len(ctx.Res.Violations) > 0 {
 			return
